@@ -75,10 +75,23 @@ class LokiStringifyMapper(StringifyMapper):
 
     def map_float_literal(self, expr, enclosing_prec, *args, **kwargs):
         if expr.kind is not None:
-            return f'{str(expr.value)}_{str(expr.kind)}'
-        return str(expr.value)
+            result = f'{str(expr.value)}_{str(expr.kind)}'
+        else:
+            result = str(expr.value)
+        return self._parenthesise_negative_literal(result, enclosing_prec)
 
-    map_int_literal = map_logic_literal
+    def map_int_literal(self, expr, enclosing_prec, *args, **kwargs):
+        return self._parenthesise_negative_literal(str(expr.value), enclosing_prec)
+
+    @staticmethod
+    def _parenthesise_negative_literal(result, enclosing_prec):
+        """
+        A literal with a negative value is a signed operand: as an operand of an
+        operator that binds tighter than a sum it needs parentheses (``(-1)**2`` is not ``-1**2``)
+        """
+        if result.startswith('-') and enclosing_prec > PREC_SUM:
+            return f'({result})'
+        return result
 
     def map_string_literal(self, expr, enclosing_prec, *args, **kwargs):
         return "'%s'" % self._regex_string_literal.sub(r"'\1", expr.value)
